@@ -1,3 +1,46 @@
-(* C15 -- placeholder until Proofs/WalkProofs.v is available *)
-From Coq Require Import List.
-Theorem C15_placeholder : True. Proof. exact I. Qed.
+(* C15 -- Hostile or damaged images: open terminates with a documented error.
+   Level "other".  What is PROVED (closed) is about the control skeleton of the two directory
+   walks of _open_fp (Model/Walk.v: breadth-first queue over the sub-directory extents an
+   ADVERSARIAL image lists, with the seen-set added by fix: commit 279a8b6): for every image,
+   the walk reads each directory extent at most once, ends within |extents| + 1 iterations with
+   Finished or the documented refusal (never runs on), its queue stays proportional to the
+   image, and on honest (tree-shaped) images the check never fires; for the pinned original the
+   claim is refuted: on a directory that lists itself (or a two-directory cycle) the loop runs
+   for EVERY fuel with a visited list that grows without bound.
+   What is NOT proved: that none of the ~3000 lines of record parsers lets an undocumented
+   exception type escape -- explored on every run by structured corruption of every structure
+   kind (truncations, field mutations, consistent both-endian rewrites, self/ancestor references)
+   opened in subprocesses under time and memory limits. *)
+From Coq Require Import ZArith List.
+From PV.Model Require Import Walk.
+From PV.Proofs Require Import WalkProofs.
+Import ListNotations.
+Local Open Scope Z_scope.
+
+Theorem C15_each_directory_read_at_most_once : forall sd fuel q v,
+  NoDup v -> NoDup (outcome_visited (walk_checked sd fuel q v)).
+Proof. exact walk_checked_visited_nodup. Qed.
+
+Theorem C15_walk_terminates : forall sd (U : list Z) (root : Z),
+  In root U -> (forall e, In e U -> incl (sd e) U) ->
+  forall v q, open_walk sd root (S (length (nodup Z.eq_dec U))) <> OutOfFuel v q.
+Proof. exact walk_checked_terminates. Qed.
+
+Theorem C15_walk_memory_bounded : forall sd root (U : list Z) (maxfan : nat) fuel v q,
+  In root U -> (forall e, In e U -> incl (sd e) U) -> (forall e, (length (sd e) <= maxfan)%nat) ->
+  open_walk sd root fuel = OutOfFuel v q ->
+  (length v <= length (nodup Z.eq_dec U))%nat /\ (length q <= length (nodup Z.eq_dec U) * maxfan + 1)%nat.
+Proof. exact walk_checked_queue_bound_universe. Qed.
+
+Theorem C15_check_silent_on_honest_images : forall sd fuel q v,
+  NoDup (outcome_visited (walk_unchecked sd fuel q v)) -> walk_checked sd fuel q v = walk_unchecked sd fuel q v.
+Proof. exact walk_checked_on_tree. Qed.
+
+Theorem C15_original_walk_never_ends_refuted :
+  (forall fuel, exists v q, walk_unchecked sd_self fuel [0] [] = OutOfFuel v q /\ length v = fuel) /\
+  (forall fuel, exists v q, walk_unchecked sd_two fuel [0] [] = OutOfFuel v q /\ length v = fuel).
+Proof. exact walk_unchecked_refuted. Qed.
+
+Theorem C15_nonvacuous :
+  open_walk sd_diamond 0 10 = Loop [3; 2; 1; 0] 3 /\ open_walk_unchecked sd_diamond 0 10 = Finished [3; 3; 2; 1; 0].
+Proof. exact walk_checked_rejects_diamond. Qed.
